@@ -8,6 +8,9 @@
    at runtime (raised and lowered) while one connection stays open; after every change FSINFO, WRITE(wtmax),
    WRITE(wtpref), READ(rtmax) are made on that old connection (p_old = true: accepted before the change) and on a fresh
    one.  Every phase is compared and judged exactly like the case itself, with the TransferSize then in force.
+   TCP calls are sent with varied fragmentation (one fragment; 64 KiB, 8 KiB, 1 KiB, 512-byte, 100-byte and smaller
+   fragments; empty non-final fragments): the expected outcome does not depend on it, and a case with a TCP part must
+   contain a WRITE of exactly wtmax bytes sent in fragments of at most 1 KiB.
 
    (1) mismatch (code 1): the implementation against the width-faithful model Model/Fsinfo32.v (FSINFO numbers, the
        WRITE count check, READ's clamp, "a call record above the record limit is dropped with the connection"); for
@@ -31,7 +34,10 @@ Record probe := mkProbe {
   p_status : N; p_count : N;
   p_size2 : N;               (* file size afterwards *)
   p_alive : bool;            (* the connection answered a NULL call afterwards (handler level: true) *)
-  p_old : bool }.            (* made on a connection accepted before the last runtime change of TransferSize *)
+  p_old : bool;              (* made on a connection accepted before the last runtime change of TransferSize *)
+  p_frag : N;                (* the call record was sent in fragments of at most this many bytes (0 = one fragment) ... *)
+  p_nfrag : N }.             (* ... this many of them, empty non-final ones included.  The model does not look at these:
+                                fragment markers are framing, the record limit applies to the reassembled payload p_reclen *)
 (* after one more runtime change: the value now in force, the six numbers as read on the old and on a fresh
    connection, the probes *)
 Record phase := mkPhase { ph_ts : N; ph_nums_old : list N; ph_nums_new : list N; ph_probes : list probe }.
@@ -119,7 +125,11 @@ Definition maxima_probed (c : case) : bool :=
   let rtmax := nth0 (c_nums c) 0 in let wtmax := nth0 (c_nums c) 3 in
   let uses_tcp := existsb p_tcp (c_probes c) in
   ((rtmax =? 0) || (has_probe PRead false rtmax (c_probes c) && (negb uses_tcp || has_probe PRead true rtmax (c_probes c)))) &&
-  ((wtmax =? 0) || (has_probe PWrite false wtmax (c_probes c) && (negb uses_tcp || has_probe PWrite true wtmax (c_probes c)))).
+  ((wtmax =? 0) || (has_probe PWrite false wtmax (c_probes c) && (negb uses_tcp || has_probe PWrite true wtmax (c_probes c)))) &&
+  (* ... and over TCP also in small fragments *)
+  ((wtmax =? 0) || negb uses_tcp ||
+   existsb (fun p => pkind_eqb (p_kind p) PWrite && p_tcp p && (p_cnt p =? wtmax) && (1 <=? p_frag p) && (p_frag p <=? 1024) &&
+                     (p_reclen p <=? p_frag p * p_nfrag p)) (c_probes c)).
 
 Definition probes_specfail (base : N) (nums : list N) (l : list probe) : list (N * N) :=
   flat_map (fun ip => if probe_ok nums (snd ip) then [] else [(base + fst ip + 1, code_specfail)]) (index_from 0 l).
